@@ -523,7 +523,12 @@ def simulate_with_model(M, lm, bseed, safe=False):
     from bioscrape.lineage import py_SimulateCellLineage
     grid = np.array([i * lm["dt"] for i in range(lm["npts"])], dtype=float)
     R_.py_seed_random(bseed)
-    lin = py_SimulateCellLineage(grid, Model=M, safe=safe)
+    try:
+        lin = py_SimulateCellLineage(grid, Model=M, safe=safe)
+    except ValueError as e:
+        if "dividing too fast" in str(e):
+            return [("refused: cells dividing within one time step",)], None      # the simulator's explicit refusal
+        raise
     n = lin.py_size()
     sch = [lin.py_get_schnitz(i) for i in range(n)]
     ids = {id(s): i for i, s in enumerate(sch)}
@@ -534,3 +539,183 @@ def simulate_with_model(M, lm, bseed, safe=False):
         cells.append((np.array(s.py_get_time()).tolist(), np.array(s.py_get_data()).tolist(), np.array(s.py_get_volume()).tolist(),
                       ids.get(id(p)) if p is not None else None, [ids.get(id(d)) if d is not None else None for d in (d1, d2)]))
     return cells, lin
+
+
+def results_pickle_probe(out, bad, stats):
+    """Pickle round trip of the result objects of a real lineage simulation: arrays equal, links re-established inside the
+    restored object graph."""
+    lin = out.get("lineage_obj")
+    if lin is None:
+        return
+    n = lin.py_size()
+    if n == 0:
+        return
+    for proto in (2, 4, 5):
+        try:
+            lin2 = pickle.loads(pickle.dumps(lin, protocol=proto))
+        except Exception as e:
+            bad("result_pickle_failed", object="Lineage", protocol=proto, error=f"{type(e).__name__}: {str(e)[:200]}")
+            return
+        if lin2.py_size() != n:
+            bad("pickled_lineage_differs", what="number of schnitzes", original=n, restored=lin2.py_size())
+            return
+        s1 = [lin.py_get_schnitz(i) for i in range(n)]
+        s2 = [lin2.py_get_schnitz(i) for i in range(n)]
+        ids1 = {id(s): i for i, s in enumerate(s1)}
+        ids2 = {id(s): i for i, s in enumerate(s2)}
+        for i in range(n):
+            a, b = s1[i], s2[i]
+            for name, f in (("time", "py_get_time"), ("data", "py_get_data"), ("volume", "py_get_volume")):
+                if not np.array_equal(np.array(getattr(a, f)()), np.array(getattr(b, f)())):
+                    bad("pickled_lineage_differs", what=name, schnitz=i, protocol=proto)
+                    return
+            pa, pb = a.py_get_parent(), b.py_get_parent()
+            ia = ids1.get(id(pa)) if pa is not None else None
+            ib = ids2.get(id(pb)) if pb is not None else None
+            if ia != ib or (pb is not None and id(pb) not in ids2):
+                bad("pickled_lineage_links_broken", what="parent", schnitz=i, original=ia, restored=ib, protocol=proto)
+                return
+            da = [ids1.get(id(d)) if d is not None else None for d in a.py_get_daughters()]
+            db = [ids2.get(id(d)) if d is not None else None for d in b.py_get_daughters()]
+            if da != db or any(d is not None and id(d) not in ids2 for d in b.py_get_daughters()):
+                bad("pickled_lineage_links_broken", what="daughters", schnitz=i, original=da, restored=db, protocol=proto)
+                return
+        stats["result_pickles"] = stats.get("result_pickles", 0) + 1
+    # a single schnitz with relatives, and cell states
+    from bioscrape.lineage import LineageVolumeCellState
+    s = lin.py_get_schnitz(n - 1)
+    try:
+        s2 = pickle.loads(pickle.dumps(s))
+        if not np.array_equal(np.array(s.py_get_data()), np.array(s2.py_get_data())) or \
+                (s.py_get_parent() is None) != (s2.py_get_parent() is None):
+            bad("pickled_schnitz_differs", schnitz=n - 1)
+            return
+        if s2.py_get_parent() is not None and not any(d is s2 for d in s2.py_get_parent().py_get_daughters()):
+            bad("pickled_lineage_links_broken", what="restored schnitz is not among its restored parent's daughters")
+            return
+        row = np.array(s.py_get_data())[-1].copy()
+        cs = LineageVolumeCellState(v0=1.25, t0=0.5, state=row, volume=float(np.array(s.py_get_volume())[-1]),
+                                    time=float(np.array(s.py_get_time())[-1]))
+        cs2 = pickle.loads(pickle.dumps(cs))
+        if not np.array_equal(np.array(cs2.py_get_state()), row) or cs2.py_get_volume() != cs.py_get_volume() or \
+                cs2.py_get_time() != cs.py_get_time() or cs2.py_get_initial_volume() != 1.25 or cs2.py_get_initial_time() != 0.5:
+            bad("pickled_cell_state_differs")
+            return
+        cs3 = copy.deepcopy(cs)
+        cs3.py_get_state()[0] += 1
+        if np.array(cs.py_get_state())[0] != row[0]:
+            bad("copied_cell_state_shares_its_array")
+            return
+        stats["cell_state_pickles"] = stats.get("cell_state_pickles", 0) + 1
+    except Exception as e:
+        bad("result_pickle_failed", object="Schnitz/LineageVolumeCellState", error=f"{type(e).__name__}: {str(e)[:200]}")
+
+
+def run_model_restart_case(case, stats):
+    """C17 lineage stratum: a LineageModel goes through a sequence of restarts (pickle / deepcopy) interleaved with
+    simulations and value edits; after each restart original and restored must produce identical lineages from the same seed and
+    must be independent. Returns (violations, digest)."""
+    import bioscrape.random as R_
+    lm = case["lm"]
+    viols = []
+    sig = {"stratum": "lineage"}
+
+    def bad(cls, **d):
+        if len(viols) < 3:
+            viols.append({"class": cls, "signature": dict(sig, **{k: d[k] for k in ("restart", "independence") if k in d}), "detail": d})
+
+    h = hashlib.sha256()
+    live, _ = build_lineage_model(lm)
+    params = dict(lm["model"]["params"])
+    init = dict(lm["model"]["init"])
+    r = seeds.rng(case["pseed"], "lin")
+    last_out = None
+    for i, op in enumerate(case["ops"]):
+        if viols:
+            break
+        stats["op_" + op[0]] = stats.get("op_" + op[0], 0) + 1
+        try:
+            if op[0] == "simulate":
+                cells, lin = simulate_with_model(live, lm, op[1], safe=bool(op[2]))
+                h.update(repr(cells).encode())
+                if lin is not None:
+                    last_out = {"lineage_obj": lin}
+            elif op[0] == "initialize":
+                live.py_initialize()
+            elif op[0] == "set_parameter":
+                names = sorted(params)
+                if names:
+                    p_ = names[op[1] % len(names)]
+                    live.set_parameter(p_, op[2])
+                    params[p_] = op[2]
+            elif op[0] == "set_species":
+                s_ = lm["model"]["species"][op[1] % len(lm["model"]["species"])]
+                live.set_species({s_: op[2]})
+                init[s_] = op[2]
+            elif op[0] in ("restart_pickle", "restart_deepcopy"):
+                how = "pickle" if op[0] == "restart_pickle" else "deepcopy"
+                try:
+                    restored = pickle.loads(pickle.dumps(live, protocol=op[1])) if how == "pickle" else copy.deepcopy(live)
+                except Exception as e:
+                    bad("restart_failed", restart=how, error=f"{type(e).__name__}: {str(e)[:300]}")
+                    break
+                # same values
+                da = {k: float(v) for k, v in live.get_species_dictionary().items()}
+                db = {k: float(v) for k, v in restored.get_species_dictionary().items()}
+                pa = {k: float(v) for k, v in live.get_parameter_dictionary().items()}
+                pb = {k: float(v) for k, v in restored.get_parameter_dictionary().items()}
+                if da != db or pa != pb:
+                    bad("restored_model_differs", restart=how, what="species / parameter values", a=[da, pa], b=[db, pb])
+                    break
+                if not np.array_equal(np.array(live.py_get_update_array()), np.array(restored.py_get_update_array())):
+                    bad("restored_model_differs", restart=how, what="stoichiometry")
+                    break
+                if (live.py_get_event_counts(), live.py_get_rule_counts()) != (restored.py_get_event_counts(), restored.py_get_rule_counts()):
+                    bad("restored_model_differs", restart=how, what="event / rule counts",
+                        a=[live.py_get_event_counts(), live.py_get_rule_counts()],
+                        b=[restored.py_get_event_counts(), restored.py_get_rule_counts()])
+                    break
+                # same behaviour from the same seed (growth, division, death, partitioning all included)
+                sd = seeds.bioscrape_seed(case["pseed"], "cmp", i)
+                ca, _ = simulate_with_model(live, lm, sd)
+                cb, _ = simulate_with_model(restored, lm, sd)
+                if ca != cb:
+                    k = next((j for j in range(min(len(ca), len(cb))) if ca[j] != cb[j]), min(len(ca), len(cb)))
+                    bad("restored_model_differs", restart=how, what="lineage simulated from the same seed", cells=[len(ca), len(cb)],
+                        first_differing_cell=k)
+                    break
+                stats["restarts"] = stats.get("restarts", 0) + 1
+                # independence
+                if op[2] != "none" and params:
+                    names = sorted(params)
+                    p_ = names[0]
+                    edited, other = (restored, live) if op[3] == "restored" else (live, restored)
+                    v = params[p_] * 1.5 + 0.25
+                    before = {k: float(x) for k, x in other.get_parameter_dictionary().items()}
+                    edited.set_parameter(p_, v)
+                    edited.set_species({lm["model"]["species"][0]: init[lm["model"]["species"][0]] + 2})
+                    after = {k: float(x) for k, x in other.get_parameter_dictionary().items()}
+                    sp_after = {k: float(x) for k, x in other.get_species_dictionary().items()}
+                    if before != after or sp_after != da:
+                        bad("copy_not_independent", restart=how, independence="set_parameter", before=before, after=after)
+                        break
+                    cc, _ = simulate_with_model(other, lm, sd)
+                    if cc != ca:
+                        bad("copy_not_independent", restart=how, independence="set_parameter", what="seeded lineage of the untouched object changed")
+                        break
+                    stats["independence_checks"] = stats.get("independence_checks", 0) + 1
+                    if op[3] == "restored":
+                        params[p_] = v
+                        init[lm["model"]["species"][0]] = init[lm["model"]["species"][0]] + 2
+                live = restored
+        except Exception as e:
+            import traceback
+            tb = traceback.extract_tb(e.__traceback__)
+            last = tb[-1]
+            if ("bioscrape" in last.filename or last.filename.endswith(".pyx")) and "/verif/" not in last.filename:
+                bad("operation_raised", op=op[0], error=f"{type(e).__name__}: {str(e)[:300]}")
+                break
+            raise
+    if not viols and last_out is not None:
+        results_pickle_probe(last_out, bad, stats)
+    return viols, h.hexdigest()
